@@ -33,7 +33,7 @@ def substitute(schema, chosen, prefix="R"):
     s = copy.deepcopy(schema)
     rules_defs, schema_defs = {}, {}
     for n, (path, kind, reg) in enumerate(sorted(chosen, key=lambda x: -len(x[0]))):
-        name = "%s%d" % (prefix, n)
+        name = "%s%d" % (prefix, n) if n % 3 != 2 else "%s name %d" % (prefix, n)     # any string is a legal registry name
         definition = positions.get_at(s, path)
         if not isinstance(definition, dict):
             continue            # already replaced through an enclosing choice
